@@ -28,7 +28,7 @@ ASSUMPTIONS = [
     "thread interleavings are those the GIL permits; switches are forced between statements via sys.monitoring",
 ]
 GATES = ["sequential_parses", "threaded_parses", "in_parser_thread_switches", "digest_checks", "failing_entries",
-         "baseline_vs_refmodel", "fresh_process_baseline_compared", "baseline_labels_vs_pinned", "cold_start_races", "twin_pairs"]
+         "baseline_vs_refmodel", "fresh_process_baseline_compared", "baseline_labels_vs_pinned", "cold_start_races", "twin_pairs", "interleaved_reader_rounds"]
 
 
 def outcome_ctor(payload, labelmsm):
@@ -434,6 +434,37 @@ def run(ctx):
                 return
             ctx.hit("sequential_parses", 2)
             ctx.hit("twin_pairs")
+    # several reader objects ALIVE at once with different options, read alternately: each frame's outcome must be
+    # the one its own reader's options give on their own
+    import io as _io
+
+    from pyrtcm import RTCMReader as _RR
+
+    frames_ok = [i for i, e in enumerate(corpus) if e["op"] in ("parse", "reader") and not e["fails"]
+                 and isinstance(base[i], tuple) and base[i][0] == "ok"]
+    for _ in range(30 if ctx.quick else 600):
+        picks = rng.sample(frames_ok, min(len(frames_ok), 6))
+        opts = [(1, 1), (2, 1), (2, 0), (1, 0)]
+        rng.shuffle(opts)
+        readers = []
+        for (lm, va) in opts[: rng.randint(2, 4)]:
+            data = b"".join(corpus[i]["data"] for i in picks)
+            readers.append((lm, _RR(_io.BytesIO(data), labelmsm=lm, validate=va, quitonerror=2)))
+        for k, i in enumerate(picks):
+            for lm, rd in readers:
+                try:
+                    raw, m = rd.read()
+                    o = ("ok", m.identity, tuple((a, b) for a, b in m.__dict__.items() if not a.startswith("_")))
+                except Exception as e:
+                    o = ("err", type(e).__name__)
+                want = outcome_ctor(corpus[i]["data"][3:-3], lm)
+                if not same(o, want):
+                    ctx.violation("history-dependence", f"reader with labelmsm={lm} interleaved with {len(readers) - 1} other "
+                                  f"live reader(s) using other options: frame {corpus[i]['tag']} decodes differently from "
+                                  f"the same payload parsed alone with labelmsm={lm}",
+                                  {"kind": "interleaved-readers", "tag": corpus[i]["tag"]})
+                    return
+        ctx.hit("interleaved_reader_rounds")
     # many objects alive
     from pyrtcm import RTCMMessage
 
